@@ -55,6 +55,7 @@ import (
 	tmock "github.com/synnaxlabs/synnax/pkg/distribution/transport/mock"
 	"github.com/synnaxlabs/synnax/pkg/storage"
 	"github.com/synnaxlabs/x/address"
+	"github.com/synnaxlabs/x/control"
 	"github.com/synnaxlabs/x/telem"
 )
 
@@ -208,33 +209,12 @@ type vfEvent struct {
 type vfRec struct {
 	mu     sync.Mutex
 	events []vfEvent
-	// first key of a writer's key set -> writer name (writers own disjoint key sets)
-	owner map[channel.Key]string
 	slow  int
 }
 
 func (r *vfRec) add(e vfEvent) {
 	r.mu.Lock()
 	r.events = append(r.events, e)
-	r.mu.Unlock()
-}
-
-func (r *vfRec) ownerOf(keys channel.Keys) string {
-	r.mu.Lock()
-	defer r.mu.Unlock()
-	for _, k := range keys {
-		if w, ok := r.owner[k]; ok {
-			return w
-		}
-	}
-	return "?"
-}
-
-func (r *vfRec) setOwner(keys channel.Keys, w string) {
-	r.mu.Lock()
-	for _, k := range keys {
-		r.owner[k] = w
-	}
 	r.mu.Unlock()
 }
 
@@ -294,7 +274,7 @@ func (s *vfWStream) Receive() (writer.Request, error) {
 		return req, err
 	}
 	if s.w == "" {
-		s.w = s.rec.ownerOf(req.Config.Keys)
+		s.w = req.Config.ControlSubject.Key // the harness names every writer's control subject after the script's writer
 		s.rec.add(vfEvent{Ev: "peer.open", W: s.w, N: s.node})
 		return req, err
 	}
@@ -494,7 +474,8 @@ type vfRunner struct {
 	step    int
 	// set once a Write frame lacked a series for a peer leaseholder that had already
 	// received a request: the code re-sends that peer its previous request (known finding)
-	tainted string
+	tainted  string
+	hungRead bool
 }
 
 func (r *vfRunner) rnd(k int) int {
@@ -507,6 +488,14 @@ func (r *vfRunner) leaseOf(ch string) int {
 		return 0
 	}
 	return r.setup.Lease[vfGroupOf(ch)]
+}
+
+func (r *vfRunner) leases(chs []string) []int {
+	out := make([]int, len(chs))
+	for i, ch := range chs {
+		out[i] = r.leaseOf(ch)
+	}
+	return out
 }
 
 func (r *vfRunner) createChannels(ctx context.Context) error {
@@ -703,7 +692,10 @@ func vfErrClass(err error) string {
 func (r *vfRunner) compareIter(cm map[string]map[string]int, g int, chs []string, a, b telem.TimeStamp, mode int, note string) (*vfViol, string) {
 	fr, err, hung := r.iterRead(g, chs, a, b, mode)
 	if hung {
-		return nil, "hang"
+		// a read that never returns: verdict-bearing like a wrong read (the driver re-runs it once)
+		r.hungRead = true
+		return &vfViol{Kind: "read", Sig: "iterator never returns", Step: r.step,
+			What: fmt.Sprintf("iterator opened on node %d over %v, abstract range %s, mode %d did not return within %s", g, chs, note, mode, vfWatchdog)}, ""
 	}
 	if err != nil {
 		return &vfViol{Kind: "read", Sig: "iterator over existing channels fails", Step: r.step,
@@ -921,8 +913,8 @@ func (r *vfRunner) exec(st vfStep) (string, *vfViol) {
 		var a vfOpenArgs
 		_ = json.Unmarshal(st.Args, &a)
 		keys := r.realKeys(a.Keys)
-		r.cl.rec.setOwner(keys, a.W)
-		cfg := writer.Config{Keys: keys, Start: r.c.ts(a.Start), Sync: &a.Sync, EnableAutoCommit: &a.Auto}
+		cfg := writer.Config{Keys: keys, Start: r.c.ts(a.Start), Sync: &a.Sync, EnableAutoCommit: &a.Auto,
+			ControlSubject: control.Subject{Key: a.W, Name: a.W}}
 		w, err, hung := vfCall(vfWatchdog, func() (*writer.Writer, error) { return r.cl.nodes[a.G].Framer.OpenWriter(ctx, cfg) })
 		if hung {
 			return "hang", nil
@@ -931,6 +923,12 @@ func (r *vfRunner) exec(st vfStep) (string, *vfViol) {
 			r.stats.failedOpens.Add(1)
 			if st.Res == "notfound" {
 				return "notfound", nil // any failure satisfies the property; the kind is pinned beyond it
+			}
+			if cls := vfErrClass(err); cls == "notfound" {
+				// every key exists (the harness waited for the metadata on every node): the
+				// cluster refuses a writer on a node because of WHERE the channels live
+				return cls, &vfViol{Kind: "open", Sig: "writer on existing channels refused: not found", Step: r.step,
+					What: fmt.Sprintf("OpenWriter on node %d with existing keys %v (leaseholders %v) failed: %v", a.G, a.Keys, r.leases(a.Keys), err)}
 			}
 			return vfErrClass(err), nil
 		}
@@ -1107,7 +1105,7 @@ func vfReplay(idx int, hist []vfStep, c vfConc, maxT int, full bool, stats *vfSt
 	r := &vfRunner{c: c, keys: map[string]channel.Key{}, names: map[channel.Key]string{}, writers: map[string]*vfWriterState{},
 		maxT: maxT, stats: stats, rng: uint64(c.Salt)*2654435761 + 12345}
 	_ = json.Unmarshal(hist[0].Args, &r.setup)
-	rec := &vfRec{owner: map[channel.Key]string{}}
+	rec := &vfRec{}
 	if c.Slow >= 1 && c.Slow <= r.setup.Nodes {
 		rec.slow = c.Slow
 	}
@@ -1119,7 +1117,7 @@ func vfReplay(idx int, hist []vfStep, c vfConc, maxT int, full bool, stats *vfSt
 			res.V = &vfViol{Kind: "panic", Sig: "panic in the distribution layer", Step: r.step, What: fmt.Sprint(p)}
 		}
 		res.Taint = r.tainted
-		if r.cl != nil && !hung {
+		if r.cl != nil && !hung && !r.hungRead {
 			for _, ws := range r.writers {
 				w := ws.w
 				_, _, _ = vfCall(5*time.Second, func() (int, error) { return 0, w.Close() })
@@ -1377,7 +1375,7 @@ func TestVerifFramerDirected(t *testing.T) {
 		name := map[bool]string{false: "nosync", true: "sync"}[sync]
 		r := &vfRunner{c: c, keys: map[string]channel.Key{}, names: map[channel.Key]string{}, writers: map[string]*vfWriterState{},
 			maxT: 9, stats: &vfStats{}, setup: vfSetupArgs{Nodes: 2, Lease: map[string]int{"A": 1, "B": 2}}}
-		cl, err := vfProvision(ctx, 2, &vfRec{owner: map[channel.Key]string{}})
+		cl, err := vfProvision(ctx, 2, &vfRec{})
 		if err == nil {
 			r.cl = cl
 			err = r.createChannels(ctx)
